@@ -36,6 +36,25 @@ def main():
                         out1 = m.value_of(s, world=1).name
                         if out1 != out:
                             out = f'{out}@0/{out1}@1'
+                        # operands that are themselves modal sentences: the value of the compound is the table entry for
+                        # the values its components take (whatever those are)
+                        Pos, Nec, Neg = Operator.Possibility, Operator.Necessity, Operator.Negation
+                        for fa, fb in ((lambda z: z, Pos), (Nec, lambda z: z), (lambda z: Neg(Pos(z)), Pos), (Pos, Nec)):
+                            m = logic.Model()
+                            for atom, v in zip((a, b), inp):
+                                m.set_atomic_value(atom, v, world=0)
+                                m.set_atomic_value(atom, v, world=1)
+                            m.R.add((0, 1))
+                            m.finish()
+                            comps = (fa(a),) if o.arity == 1 else (fa(a), fb(b))
+                            if o.arity == 1 and fa(a) == a:
+                                comps = (Pos(a),)
+                            cv = [m.value_of(c_, world=0) for c_ in comps]
+                            want = m.truth_function(o, *cv).name
+                            got = m.value_of(o(*comps), world=0).name
+                            if got != want:
+                                out = f'{out}; {o.name}{tuple(str(c_) for c_ in comps)} with component values {[x.name for x in cv]} evaluates to {got}, table says {want}'
+                                break
                 except Exception as e:
                     out = f'!{type(e).__name__}'
                 rows.append([[v.name for v in inp], out])
